@@ -44,3 +44,24 @@ fire("C23", "apply_to_sequence-count-only-for-nonempty",
 silent("C23", "call_tapes-append-order-swapped",
        [(CP, "                fns.append(fn)\n                end = start + len(new_tapes)\n                slices.append(slice(start, end))",
              "                end = start + len(new_tapes)\n                slices.append(slice(start, end))\n                fns.append(fn)")])
+
+# --- R-C23-slice / module-level functions taking a pipeline
+_CP = "pennylane/core/transforms/compile_pipeline.py"
+fire("C23", "batch-postprocessing-fast-path-ignores-recorded-slices",
+     (_CP, "    return tuple(fn(results[sl]) for fn, sl in zip(individual_fns, slices, strict=True))",
+           "    if slices and isinstance(slices[0], slice) and len(results) == len(individual_fns):\n        return tuple(fn(results[i : i + 1]) for i, fn in enumerate(individual_fns))\n"
+           "    return tuple(fn(results[sl]) for fn, sl in zip(individual_fns, slices, strict=True))"),
+     "R-C23-slice", "_batch_postprocessing")
+fire("C23", "transform-applied-to-pipeline-shares-markers",
+     (_CP, "    program = copy(obj)\n    program.append(BoundTransform(transform, args=targs, kwargs=tkwargs))",
+           "    program = CompilePipeline(list(obj), cotransform_cache=obj.cotransform_cache)\n    program._markers = obj._markers\n    program.append(BoundTransform(transform, args=targs, kwargs=tkwargs))"),
+     "R-C23-fresh", "_apply_to_program")
+fire("C23", "transform-applied-to-pipeline-appends-in-place",
+     (_CP, "    program = copy(obj)\n    program.append(BoundTransform(transform, args=targs, kwargs=tkwargs))",
+           "    program = obj\n    program.append(BoundTransform(transform, args=targs, kwargs=tkwargs))"),
+     "R-C23-pure", "_apply_to_program")
+silent("C23", "batch-postprocessing-indexed-form",
+       [(_CP, "    return tuple(fn(results[sl]) for fn, sl in zip(individual_fns, slices, strict=True))",
+              "    return tuple(fn(results[slices[i]]) for i, fn in enumerate(individual_fns))")])
+silent("C23", "transform-applied-to-pipeline-copy-method",
+       [(_CP, "    program = copy(obj)\n    program.append(", "    program = obj.__copy__()\n    program.append(")])
